@@ -784,6 +784,7 @@ def Expr.nfInv : Expr → Prop
   -- `with` / `assert`: outside the spacing theorem so far (`File.basic`)
   | .wth .. => False
   | .asrt .. => False
+  | .sel .. => False
 def allNfInv : List Expr → Prop
   | [] => True
   | e :: rest => e.nfInv ∧ allNfInv rest
@@ -804,6 +805,7 @@ def Expr.inlineClean : Expr → Prop
   | .app n x g _ _ _ => ((Layout.fromGap g).onNewline = false → x.before = []) ∧ n.inlineClean ∧ x.inlineClean
   | .wth .. => False
   | .asrt .. => False
+  | .sel .. => False
 def allInlineClean : List Expr → Prop
   | [] => True
   | e :: rest => e.inlineClean ∧ allInlineClean rest
@@ -1253,6 +1255,7 @@ theorem rebuildAP_summ : (e : Expr) → e.ok → e.mlSafe → e.nfInv → e.inli
     simp only [Summ.comb, List.nil_append, List.append_nil, Bool.true_and, Bool.and_true, hsep]
   | .wth .., _, _, hinv, _, _, _, _ => hinv.elim
   | .asrt .., _, _, hinv, _, _, _, _ => hinv.elim
+  | .sel .., _, _, hinv, _, _, _, _ => hinv.elim
 theorem joinNl_summ : (es : List Expr) → allOk es → allMlSafe es → allNfInv es → allInlineClean es → nonLastClosed es → es ≠ [] → ∀ (i : Nat),
     ∃ l f t, summ (joinP [.ws ['\n']] (rebuildAllP es i false)) = .lexy l f true t ∧ f ≠ semi ∧ VLead l ∧ TrailT t
   | [], _, _, _, _, _, h, _ => absurd rfl h
@@ -1292,6 +1295,7 @@ theorem previewP_summ : (e : Expr) → e.ok → e.mlSafe → e.nfInv → e.inlin
   | .app .., _, _, _, _, i, p, h => by simp [Expr.previewP] at h
   | .wth .., _, _, _, _, i, p, h => by simp [Expr.previewP] at h
   | .asrt .., _, _, _, _, i, p, h => by simp [Expr.previewP] at h
+  | .sel .., _, _, _, _, i, p, h => by simp [Expr.previewP] at h
   | .list value ml inner before after, hok, hml, hinv, hclean, i, p, h => by
     have hvm := hml.1
     obtain ⟨hv, hin, hb, ha⟩ := hok
